@@ -1,0 +1,362 @@
+//go:build verif
+
+// Contracts for the deductive checks (comment-only). Scope: normalize.go, validate.go,
+// environment.go, omitEmpty.go, fix.go.
+
+package loader
+
+//@ func fixEmptyNotNull
+//@   nopanic[C01]
+//@   assigns below(value)
+//@   ensures[C01] wf(result)
+//@   ensures[C01] isList(value) && asList(value) == nil ==> isList(result) && asList(result) != nil && len(asList(result)) == 0
+//@   ensures[C01] !(isList(value) && asList(value) == nil) ==> result == value
+
+//@ func isEmpty
+//@   nopanic[C01]
+//@   pure
+//@   ensures[C01] result <==> (e == nil || (isStr(e) && asStr(e) == ""))
+
+//@ func mustOmit
+//@   nopanic[C01]
+
+//@ func omitEmpty
+//@   nopanic[C01]
+//@   assigns below(data)
+//@   ensures[C01] wf(result)
+//@   ensures[C01] isMap(data) ==> result == data
+//@   ensures[C01] isList(data) ==> isList(result)
+//@   ensures[C01] !isMap(data) && !isList(data) ==> result == data
+
+//@ func OmitEmpty
+//@   nopanic[C01]
+//@   requires yaml != nil
+
+// ---------------------------------------------------------------------------------------------
+// Shape and separation of the raw model (map[string]any tree).
+//
+// Separation (the `sep` assumption of the YAML boundary: two different positions of a tree never
+// share a map) has no primitive in the contract language. It is stated with three ghost
+// (uninterpreted) labellings of map objects: role(m) = which position class m sits at, okey(m) =
+// the service / resource key that owns m, oidx(m) = index inside a list. Two maps that differ in
+// one label are different objects, which is all the proofs use.
+//@ spec role(m map[string]any) int
+//@ spec okey(m map[string]any) string
+//@ spec oidx(m map[string]any) int
+//@ spec osec(m map[string]any) string
+
+//@ spec svcs(d map[string]any) map[string]any = asMap(d["services"])
+//@ spec svc(d map[string]any, k string) map[string]any = asMap(asMap(d["services"])[k])
+//@ spec hasSvc(d map[string]any, k string) bool = has(d, "services") && has(asMap(d["services"]), k)
+
+// shape needed by normalizeNetworks
+//@ spec netShape(d map[string]any) bool = (has(d, "networks") ==> isMap(d["networks"])) && (has(d, "services") ==> isMap(d["services"])) && (forall k string :: hasSvc(d, k) ==> isMap(svcs(d)[k]) && (has(svc(d, k), "networks") ==> isMap(svc(d, k)["networks"])))
+//@ spec netSep(d map[string]any) bool = role(d) == 0 && (has(d, "services") ==> role(svcs(d)) == 1) && (has(d, "networks") ==> role(asMap(d["networks"])) == 2 && osec(asMap(d["networks"])) == "networks") && (forall k string :: hasSvc(d, k) ==> role(svc(d, k)) == 10 && okey(svc(d, k)) == k && (has(svc(d, k), "networks") ==> role(asMap(svc(d, k)["networks"])) == 11))
+
+// closedness: the engine assumes wf(x) for a value read out of a map relative to the watermark at the time of the
+// read, so after an allocation it cannot tell a pre-existing sub-map from the fresh one. Stating wf() in the
+// precondition pins the sub-maps below the entry watermark (engine limitation, see report).
+//@ spec netClosed(d map[string]any) bool = wf(d["services"]) && wf(d["networks"]) && (forall k string :: hasSvc(d, k) ==> wf(svcs(d)[k]) && wf(svc(d, k)["networks"]))
+
+// a service uses the default network: no network_mode and (no networks, or empty networks, or networks.default)
+//@ spec implicitDefault(s map[string]any) bool = !has(s, "network_mode") && (!has(s, "networks") || len(asMap(s["networks"])) == 0)
+//@ spec usesDefault(s map[string]any) bool = !has(s, "network_mode") && (!has(s, "networks") || len(asMap(s["networks"])) == 0 || has(asMap(s["networks"]), "default"))
+
+//@ func normalizeNetworks
+//@   nopanic[C01,C11]
+//@   requires dict != nil
+//@   requires netShape(dict)
+//@   requires netSep(dict)
+//@   requires netClosed(dict)
+//@   ensures[C11] forall k string :: old(hasSvc(dict, k)) ==> hasSvc(dict, k) && isMap(svcs(dict)[k]) && svc(dict, k) == old(svc(dict, k))
+//@   ensures[C11] forall k string :: old(hasSvc(dict, k)) && old(implicitDefault(svc(dict, k))) ==> has(svc(dict, k), "networks") && isMap(svc(dict, k)["networks"])
+//@      && has(asMap(svc(dict, k)["networks"]), "default") && asMap(svc(dict, k)["networks"])["default"] == nil
+//@      && (forall j string :: has(asMap(svc(dict, k)["networks"]), j) ==> j == "default")
+//@   ensures[C11] forall k string :: old(hasSvc(dict, k)) && !old(implicitDefault(svc(dict, k))) ==> (has(svc(dict, k), "networks") <==> old(has(svc(dict, k), "networks")))
+//@      && svc(dict, k)["networks"] == old(svc(dict, k)["networks"])
+// top-level `default` is added iff some service uses it and it is not declared. Proved for models that declare a
+// `networks` section; the general form needs an invariant about the local `networks` (a phi of the two branches before
+// the loop), which cannot be named in an invariant (engine limitation), so it is kept inactive.
+//@   ensures[C11] old(has(dict, "networks")) ==> ((has(dict, "networks") && isMap(dict["networks"]) && has(asMap(dict["networks"]), "default")) <==> (old(has(dict, "networks") && has(asMap(dict["networks"]), "default")) || (exists k string :: old(hasSvc(dict, k) && usesDefault(svc(dict, k))))))
+//@?  ensures[C11] (has(dict, "networks") && isMap(dict["networks"]) && has(asMap(dict["networks"]), "default")) <==> (old(has(dict, "networks") && has(asMap(dict["networks"]), "default")) || (exists k string :: old(hasSvc(dict, k) && usesDefault(svc(dict, k)))))
+//@   ensures[C11] old(has(dict, "networks")) ==> has(dict, "networks") && dict["networks"] == old(dict["networks"])
+//@   ensures[C11] forall j string :: old(has(dict, "networks") && has(asMap(dict["networks"]), j)) ==> has(asMap(dict["networks"]), j) && asMap(dict["networks"])[j] == old(asMap(dict["networks"])[j])
+//@   ensures[C11] old(has(dict, "networks")) ==> forall j string :: has(asMap(dict["networks"]), j) && j != "default" ==> old(has(asMap(dict["networks"]), j))
+//@?  ensures[C11] forall j string :: has(dict, "networks") && has(asMap(dict["networks"]), j) && j != "default" ==> old(has(dict, "networks") && has(asMap(dict["networks"]), j))
+// frame (needed by Normalize): only the `networks` key of a service, the services/dict rows and the top-level networks map are written
+//@   ensures forall k string, j string :: old(hasSvc(dict, k)) && j != "networks" ==> (has(svc(dict, k), j) <==> old(has(svc(dict, k), j))) && svc(dict, k)[j] == old(svc(dict, k)[j])
+//@   ensures forall m map[string]any, j string :: !fresh(m) && role(m) != 0 && role(m) != 1 && !(role(m) == 2 && osec(m) == "networks") && role(m) != 10 ==> (has(m, j) <==> old(has(m, j))) && m[j] == old(m[j])
+//@   ensures forall j string :: j != "networks" ==> (has(dict, j) <==> old(has(dict, j))) && dict[j] == old(dict[j])
+//@   ensures forall k string :: hasSvc(dict, k) ==> old(hasSvc(dict, k))
+//@   loop 1
+//@     invariant forall m map[string]any, j string :: !fresh(m) && role(m) != 0 && role(m) != 1 && !(role(m) == 2 && osec(m) == "networks") && role(m) != 10 ==> (has(m, j) <==> old(has(m, j))) && m[j] == old(m[j])
+//@     invariant forall k string, j string :: has(services, k) && j != "networks" ==> (has(asMap(services[k]), j) <==> old(has(asMap(services[k]), j))) && asMap(services[k])[j] == old(asMap(services[k])[j])
+//@     invariant forall j string :: j != "networks" && j != "services" ==> (has(dict, j) <==> old(has(dict, j))) && dict[j] == old(dict[j])
+//@     invariant dict["services"] == old(dict["services"])
+//@     invariant usesDefaultNetwork <==> (exists k string :: seen(k) && has(services, k) && old(usesDefault(asMap(services[k]))))
+//@     invariant (has(dict, "networks") <==> old(has(dict, "networks"))) && dict["networks"] == old(dict["networks"])
+//@     invariant forall j string :: has(dict, "networks") ==> (has(asMap(dict["networks"]), j) <==> old(has(asMap(dict["networks"]), j))) && asMap(dict["networks"])[j] == old(asMap(dict["networks"])[j])
+//@     invariant dict != nil && has(dict, "services") && svcs(dict) == services && isMap(dict["services"])
+//@     invariant forall k string :: has(services, k) <==> old(has(services, k))
+//@     invariant forall k string :: has(services, k) ==> isMap(services[k]) && services[k] == old(services[k])
+//@     invariant forall k string :: has(services, k) && !seen(k) ==> (has(asMap(services[k]), "networks") <==> old(has(asMap(services[k]), "networks"))) && asMap(services[k])["networks"] == old(asMap(services[k])["networks"])
+//@         && (has(asMap(services[k]), "network_mode") <==> old(has(asMap(services[k]), "network_mode")))
+//@     invariant forall m map[string]any :: m != nil && role(m) == 11 && !fresh(m) ==> len(m) == old(len(m)) && (has(m, "default") <==> old(has(m, "default")))
+//@     invariant forall k string :: has(services, k) && seen(k) && old(implicitDefault(asMap(services[k]))) ==> has(asMap(services[k]), "networks") && isMap(asMap(services[k])["networks"]) && fresh(asMap(asMap(services[k])["networks"]))
+//@         && has(asMap(asMap(services[k])["networks"]), "default") && asMap(asMap(services[k])["networks"])["default"] == nil
+//@         && (forall j string :: has(asMap(asMap(services[k])["networks"]), j) ==> j == "default")
+//@     invariant forall k string :: has(services, k) && seen(k) && !old(implicitDefault(asMap(services[k]))) ==> (has(asMap(services[k]), "networks") <==> old(has(asMap(services[k]), "networks"))) && asMap(services[k])["networks"] == old(asMap(services[k])["networks"])
+
+// ---------------------------------------------------------------------------------------------
+// setNameFromKey (C11: every network, volume, secret and config gets the name <project>_<key> unless external or named)
+//@ spec isRes(r string) bool = r == "networks" || r == "volumes" || r == "configs" || r == "secrets"
+//@ spec hasRes(d map[string]any, r string, k string) bool = has(d, r) && has(asMap(d[r]), k)
+//@ spec resShape(d map[string]any) bool = forall r string :: isRes(r) && has(d, r) ==> isMap(d[r]) && wf(d[r]) && (forall k string :: has(asMap(d[r]), k) ==> (asMap(d[r])[k] == nil || isMap(asMap(d[r])[k])) && wf(asMap(d[r])[k]))
+//@ spec resSep(d map[string]any) bool = role(d) == 0 && (forall r string :: isRes(r) && has(d, r) ==> role(asMap(d[r])) == 2 && osec(asMap(d[r])) == r && (forall k string :: has(asMap(d[r]), k) && isMap(asMap(d[r])[k]) ==> role(asMap(asMap(d[r])[k])) == 20 && osec(asMap(asMap(d[r])[k])) == r && okey(asMap(asMap(d[r])[k])) == k))
+
+//@ func isTrue
+//@   nopanic[C01,C11]
+
+//@ spec secIdx(r string) int = ite(r == "networks", 0, ite(r == "volumes", 1, ite(r == "configs", 2, 3)))
+//@ spec ent(d map[string]any, r string, k string) any = asMap(d[r])[k]
+//@ spec emap(d map[string]any, r string, k string) map[string]any = asMap(asMap(d[r])[k])
+// post-state of one resource entry (r = section, k = key). NB a spec m[k] on an absent key is unconstrained (not nil),
+// hence the explicit has() guards.
+//@ spec named(d map[string]any, r string, k string) bool = hasRes(d, r, k) && isMap(ent(d, r, k)) && has(emap(d, r, k), "name") && emap(d, r, k)["name"] != nil
+//@ spec kept(d map[string]any, r string, k string) bool = old(isMap(ent(d, r, k))) ==> ent(d, r, k) == old(ent(d, r, k)) && (old(has(emap(d, r, k), "name") && emap(d, r, k)["name"] != nil) ==> emap(d, r, k)["name"] == old(emap(d, r, k)["name"])) && (forall j string :: j != "name" ==> (has(emap(d, r, k), j) <==> old(has(emap(d, r, k), j))) && emap(d, r, k)[j] == old(emap(d, r, k)[j]))
+//@ spec created(d map[string]any, r string, k string) bool = !old(isMap(ent(d, r, k))) ==> fresh(emap(d, r, k)) && (forall j string :: has(emap(d, r, k), j) ==> j == "name")
+//@ spec untouched(d map[string]any, r string, k string) bool = ent(d, r, k) == old(ent(d, r, k)) && (isMap(ent(d, r, k)) ==> (forall j string :: (has(emap(d, r, k), j) <==> old(has(emap(d, r, k), j))) && emap(d, r, k)[j] == old(emap(d, r, k)[j])))
+
+//@ func setNameFromKey
+//@   nopanic[C01,C11]
+//@   requires resShape(dict)
+//@   requires resSep(dict)
+// every declared resource ends up as a map carrying a name; the resource object is kept, an explicit name is never
+// overwritten, no other attribute changes, and no resource is added or removed
+//@   ensures[C11] forall r string, k string :: isRes(r) && old(hasRes(dict, r, k)) ==> named(dict, r, k)
+//@   ensures[C11] forall r string, k string :: isRes(r) && old(hasRes(dict, r, k)) ==> kept(dict, r, k)
+//@   ensures[C11] forall r string, k string :: isRes(r) && old(hasRes(dict, r, k)) ==> created(dict, r, k)
+//@   ensures[C11] forall r string, k string :: isRes(r) && has(dict, r) && has(asMap(dict[r]), k) ==> old(hasRes(dict, r, k))
+//@   loop 1
+//@     invariant -1 <= rangeindex && rangeindex < 4
+//@     invariant forall r string :: (has(dict, r) <==> old(has(dict, r))) && dict[r] == old(dict[r])
+//@     invariant forall r string, k string :: isRes(r) && has(dict, r) ==> (has(asMap(dict[r]), k) <==> old(has(asMap(dict[r]), k)))
+//@     invariant forall r string, k string :: isRes(r) && secIdx(r) > rangeindex && hasRes(dict, r, k) ==> untouched(dict, r, k)
+//@     invariant forall r string, k string :: isRes(r) && secIdx(r) <= rangeindex && hasRes(dict, r, k) ==> named(dict, r, k) && kept(dict, r, k) && created(dict, r, k)
+//@   loop 2
+//@     invariant isRes(osec(toplevel)) && has(dict, osec(toplevel)) && isMap(dict[osec(toplevel)]) && asMap(dict[osec(toplevel)]) == toplevel && toplevel != nil
+//@     invariant forall r string :: (has(dict, r) <==> old(has(dict, r))) && dict[r] == old(dict[r])
+//@     invariant forall r string, k string :: isRes(r) && has(dict, r) ==> (has(asMap(dict[r]), k) <==> old(has(asMap(dict[r]), k)))
+//@     invariant forall r string, k string :: isRes(r) && secIdx(r) > secIdx(osec(toplevel)) && hasRes(dict, r, k) ==> untouched(dict, r, k)
+//@     invariant forall r string, k string :: isRes(r) && secIdx(r) < secIdx(osec(toplevel)) && hasRes(dict, r, k) ==> named(dict, r, k) && kept(dict, r, k) && created(dict, r, k)
+//@     invariant forall k string :: has(toplevel, k) && !seen(k) ==> untouched(dict, osec(toplevel), k)
+//@     invariant forall k string :: has(toplevel, k) && seen(k) ==> named(dict, osec(toplevel), k)
+//@     invariant forall k string :: has(toplevel, k) && seen(k) ==> kept(dict, osec(toplevel), k)
+//@     invariant forall k string :: has(toplevel, k) && seen(k) ==> created(dict, osec(toplevel), k)
+
+// ---------------------------------------------------------------------------------------------
+// resolve (C16: a key written without a value takes the value of the environment if present there; C11: explicit
+// values are never overwritten). The value produced by the lookup callback cannot be named in a contract (no
+// application of a function value in the spec language), so the clauses say where a value is kept, dropped or looked up.
+// Engine limits met here: (1) the local `resolved` of the map case cannot be named in a loop invariant (two locals of
+// that name in different type-switch cases; the map one is a MakeMap, not a phi), so the map-case clauses that need a
+// loop-2 invariant are inactive; (2) loop havoc ignores `pure` (the dynamic call fn() makes both loops havoc-all), the
+// frame of the any-slice heap is then an array equality that no invariant of the language can re-establish
+// (frame#.. S|Any stays unproved although nothing pre-existing is written).
+//@ func resolve
+//@   nopanic[C01,C11,C16]
+//@   pure
+//@   requires fn != nil
+//@   ensures wf(result.0)
+//@   ensures[C16] isMap(a) ==> result.1 && isMap(result.0) && fresh(asMap(result.0))
+//@?   ensures[C11,C16] isMap(a) ==> forall k string :: has(asMap(a), k) && asMap(a)[k] != nil ==> has(asMap(result.0), k) && asMap(result.0)[k] == asMap(a)[k]
+//@?   ensures[C16] isMap(a) ==> forall k string :: has(asMap(result.0), k) ==> has(asMap(a), k)
+//@?   ensures[C16] isMap(a) && keepEmpty ==> forall k string :: has(asMap(a), k) ==> has(asMap(result.0), k)
+//@?   ensures[C16] isMap(a) ==> forall k string :: has(asMap(result.0), k) && asMap(a)[k] == nil ==> asMap(result.0)[k] == nil || isStr(asMap(result.0)[k])
+//@?   ensures[C16] isMap(a) && !keepEmpty ==> forall k string :: has(asMap(result.0), k) && asMap(a)[k] == nil ==> isStr(asMap(result.0)[k])
+//@   ensures[C16] isList(a) ==> result.1 && isList(result.0) && len(asList(result.0)) <= len(asList(a))
+//@   ensures[C11,C16] isStr(a) && contains(asStr(a), "=") ==> result.1 && result.0 == a
+//@   ensures[C16] isStr(a) && !contains(asStr(a), "=") && keepEmpty ==> result.1 && isStr(result.0)
+//@   ensures[C16] isStr(a) ==> isStr(result.0)
+//@   ensures[C16] !isMap(a) && !isList(a) && !isStr(a) ==> !result.1 && result.0 == a
+//@   loop 1
+//@     invariant -1 <= rangeindex && rangeindex < len(v)
+//@     invariant len(resolved) <= rangeindex + 1
+//@     invariant resolved == nil || fresh(resolved)
+//@     invariant forall m map[string]any, k string :: !fresh(m) ==> (has(m, k) <==> old(has(m, k))) && m[k] == old(m[k])
+//@     invariant forall s []any, i int :: !fresh(s) ==> s[i] == old(s[i])
+//@   loop 2
+//@?    invariant forall k string :: has(resolved, k) ==> seen(k) && has(asMap(a), k)
+//@?    invariant forall k string :: seen(k) && has(asMap(a), k) && asMap(a)[k] != nil ==> has(resolved, k) && resolved[k] == asMap(a)[k]
+//@?    invariant keepEmpty ==> forall k string :: seen(k) && has(asMap(a), k) ==> has(resolved, k)
+//@     invariant forall m map[string]any, k string :: !fresh(m) ==> (has(m, k) <==> old(has(m, k))) && m[k] == old(m[k])
+//@     invariant forall s []any, i int :: !fresh(s) ==> s[i] == old(s[i])
+
+// ---------------------------------------------------------------------------------------------
+// checkConsistency (C10)
+//@ func checkConsistency
+//@   nopanic[C01,C10]
+//@   requires project != nil
+// C10: err == nil ==> every rule holds for the project that was checked (equivalently: a model that breaks one rule is
+// rejected). The rules are stated on the entry state (old) because the tail call graph.CheckCycle rewrites
+// project.Services (newGraph: project.Services[name] = s) and has no frame contract in this package.
+// rule: image or build
+//@   ensures[C10] err == nil ==> forall k string :: old(has(project.Services, k)) ==> old(project.Services[k].Build != nil || project.Services[k].Image != "")
+// rule: dockerfile xor dockerfile_inline
+//@   ensures[C10] err == nil ==> forall k string :: old(has(project.Services, k)) ==> old(project.Services[k].Build != nil ==> !(project.Services[k].Build.DockerfileInline != "" && project.Services[k].Build.Dockerfile != ""))
+// rule: platform in build.platforms
+//@   ensures[C10] err == nil ==> forall k string :: old(has(project.Services, k)) ==> old(project.Services[k].Build != nil && len(project.Services[k].Build.Platforms) > 0 && project.Services[k].Platform != "" ==> (exists i int :: 0 <= i && i < len(project.Services[k].Build.Platforms) && project.Services[k].Build.Platforms[i] == project.Services[k].Platform))
+// rule: network_mode excludes networks
+//@   ensures[C10] err == nil ==> forall k string :: old(has(project.Services, k)) ==> old(!(project.Services[k].NetworkMode != "" && len(project.Services[k].Networks) > 0))
+// rule: networks declared
+//@   ensures[C10] err == nil ==> forall k string :: old(has(project.Services, k)) ==> old(forall n string :: has(project.Services[k].Networks, n) ==> has(project.Networks, n))
+// rule: named volumes declared
+//@   ensures[C10] err == nil ==> forall k string :: old(has(project.Services, k)) ==> old(forall i int :: 0 <= i && i < len(project.Services[k].Volumes) && project.Services[k].Volumes[i].Type == "volume" && project.Services[k].Volumes[i].Source != "" ==> has(project.Volumes, project.Services[k].Volumes[i].Source))
+// rule: build secrets declared
+//@   ensures[C10] err == nil ==> forall k string :: old(has(project.Services, k)) ==> old(project.Services[k].Build != nil ==> (forall i int :: 0 <= i && i < len(project.Services[k].Build.Secrets) ==> has(project.Secrets, project.Services[k].Build.Secrets[i].Source)))
+// rule: configs declared
+//@   ensures[C10] err == nil ==> forall k string :: old(has(project.Services, k)) ==> old(forall i int :: 0 <= i && i < len(project.Services[k].Configs) ==> has(project.Configs, project.Services[k].Configs[i].Source))
+// rule: secrets declared
+//@   ensures[C10] err == nil ==> forall k string :: old(has(project.Services, k)) ==> old(forall i int :: 0 <= i && i < len(project.Services[k].Secrets) ==> has(project.Secrets, project.Services[k].Secrets[i].Source))
+// rule: mem_limit agrees
+//@   ensures[C10] err == nil ==> forall k string :: old(has(project.Services, k)) ==> old(project.Services[k].MemLimit != 0 && project.Services[k].Deploy != nil && project.Services[k].Deploy.Resources.Limits != nil ==> project.Services[k].Deploy.Resources.Limits.MemoryBytes == project.Services[k].MemLimit)
+// rule: mem_reservation agrees
+//@   ensures[C10] err == nil ==> forall k string :: old(has(project.Services, k)) ==> old(project.Services[k].MemReservation != 0 && project.Services[k].Deploy != nil && project.Services[k].Deploy.Resources.Reservations != nil ==> project.Services[k].Deploy.Resources.Reservations.MemoryBytes == project.Services[k].MemReservation)
+// rule: pids_limit agrees
+//@   ensures[C10] err == nil ==> forall k string :: old(has(project.Services, k)) ==> old(project.Services[k].PidsLimit != 0 && project.Services[k].Deploy != nil && project.Services[k].Deploy.Resources.Limits != nil ==> project.Services[k].Deploy.Resources.Limits.Pids == project.Services[k].PidsLimit)
+// rule: watch target
+//@   ensures[C10] err == nil ==> forall k string :: old(has(project.Services, k)) ==> old(project.Services[k].Develop != nil ==> (forall i int :: 0 <= i && i < len(project.Services[k].Develop.Watch) && project.Services[k].Develop.Watch[i].Action != "rebuild" ==> project.Services[k].Develop.Watch[i].Target != ""))
+// rule: a non-external secret has a file or an environment source
+//@   ensures[C10] err == nil ==> forall n string :: old(has(project.Secrets, n)) && !old(project.Secrets[n].External) ==> old(project.Secrets[n].File != "" || project.Secrets[n].Environment != "")
+//@   loop 1
+//@     invariant forall k string :: seen(k) && old(has(project.Services, k)) ==> old(project.Services[k].Build != nil || project.Services[k].Image != "")
+//@     invariant forall k string :: seen(k) && old(has(project.Services, k)) ==> old(project.Services[k].Build != nil ==> !(project.Services[k].Build.DockerfileInline != "" && project.Services[k].Build.Dockerfile != ""))
+//@     invariant forall k string :: seen(k) && old(has(project.Services, k)) ==> old(project.Services[k].Build != nil && len(project.Services[k].Build.Platforms) > 0 && project.Services[k].Platform != "" ==> (exists i int :: 0 <= i && i < len(project.Services[k].Build.Platforms) && project.Services[k].Build.Platforms[i] == project.Services[k].Platform))
+//@     invariant forall k string :: seen(k) && old(has(project.Services, k)) ==> old(!(project.Services[k].NetworkMode != "" && len(project.Services[k].Networks) > 0))
+//@     invariant forall k string :: seen(k) && old(has(project.Services, k)) ==> old(forall n string :: has(project.Services[k].Networks, n) ==> has(project.Networks, n))
+//@     invariant forall k string :: seen(k) && old(has(project.Services, k)) ==> old(forall i int :: 0 <= i && i < len(project.Services[k].Volumes) && project.Services[k].Volumes[i].Type == "volume" && project.Services[k].Volumes[i].Source != "" ==> has(project.Volumes, project.Services[k].Volumes[i].Source))
+//@     invariant forall k string :: seen(k) && old(has(project.Services, k)) ==> old(project.Services[k].Build != nil ==> (forall i int :: 0 <= i && i < len(project.Services[k].Build.Secrets) ==> has(project.Secrets, project.Services[k].Build.Secrets[i].Source)))
+//@     invariant forall k string :: seen(k) && old(has(project.Services, k)) ==> old(forall i int :: 0 <= i && i < len(project.Services[k].Configs) ==> has(project.Configs, project.Services[k].Configs[i].Source))
+//@     invariant forall k string :: seen(k) && old(has(project.Services, k)) ==> old(forall i int :: 0 <= i && i < len(project.Services[k].Secrets) ==> has(project.Secrets, project.Services[k].Secrets[i].Source))
+//@     invariant forall k string :: seen(k) && old(has(project.Services, k)) ==> old(project.Services[k].MemLimit != 0 && project.Services[k].Deploy != nil && project.Services[k].Deploy.Resources.Limits != nil ==> project.Services[k].Deploy.Resources.Limits.MemoryBytes == project.Services[k].MemLimit)
+//@     invariant forall k string :: seen(k) && old(has(project.Services, k)) ==> old(project.Services[k].MemReservation != 0 && project.Services[k].Deploy != nil && project.Services[k].Deploy.Resources.Reservations != nil ==> project.Services[k].Deploy.Resources.Reservations.MemoryBytes == project.Services[k].MemReservation)
+//@     invariant forall k string :: seen(k) && old(has(project.Services, k)) ==> old(project.Services[k].PidsLimit != 0 && project.Services[k].Deploy != nil && project.Services[k].Deploy.Resources.Limits != nil ==> project.Services[k].Deploy.Resources.Limits.Pids == project.Services[k].PidsLimit)
+//@     invariant forall k string :: seen(k) && old(has(project.Services, k)) ==> old(project.Services[k].Develop != nil ==> (forall i int :: 0 <= i && i < len(project.Services[k].Develop.Watch) && project.Services[k].Develop.Watch[i].Action != "rebuild" ==> project.Services[k].Develop.Watch[i].Target != ""))
+//@   loop 2
+//@     invariant -1 <= rangeindex && rangeindex < len(s.Build.Platforms) && !found
+//@   loop 3
+//@     invariant forall n string :: seen(n) && has(s.Networks, n) ==> has(project.Networks, n)
+//@   loop 5
+//@     invariant -1 <= rangeindex && rangeindex < len(s.Volumes)
+//@     invariant forall i int :: 0 <= i && i <= rangeindex && s.Volumes[i].Type == "volume" && s.Volumes[i].Source != "" ==> has(project.Volumes, s.Volumes[i].Source)
+//@   loop 6
+//@     invariant -1 <= rangeindex && rangeindex < len(s.Build.Secrets)
+//@     invariant forall i int :: 0 <= i && i <= rangeindex ==> has(project.Secrets, s.Build.Secrets[i].Source)
+//@   loop 7
+//@     invariant -1 <= rangeindex && rangeindex < len(s.Configs)
+//@     invariant forall i int :: 0 <= i && i <= rangeindex ==> has(project.Configs, s.Configs[i].Source)
+//@   loop 8
+//@     invariant -1 <= rangeindex && rangeindex < len(s.Secrets)
+//@     invariant forall i int :: 0 <= i && i <= rangeindex ==> has(project.Secrets, s.Secrets[i].Source)
+//@   loop 9
+//@     invariant -1 <= rangeindex && rangeindex < len(s.Develop.Watch)
+//@     invariant forall i int :: 0 <= i && i <= rangeindex && s.Develop.Watch[i].Action != "rebuild" ==> s.Develop.Watch[i].Target != ""
+//@   loop 10
+//@     invariant forall n string :: seen(n) && has(project.Secrets, n) && !project.Secrets[n].External ==> project.Secrets[n].File != "" || project.Secrets[n].Environment != ""
+
+// ---------------------------------------------------------------------------------------------
+// Normalize (C11 defaults; C01 no panic under the shape the schema + canonical transformers establish)
+//@ spec strList(x any) bool = isList(x) && !fresh(asList(x)) && (forall i int :: 0 <= i && i < len(asList(x)) ==> isStr(asList(x)[i]))
+//@ spec volOK(v any, k string) bool = isMap(v) && !fresh(asMap(v)) && role(asMap(v)) == 14 && okey(asMap(v)) == k && has(asMap(v), "target") && isStr(asMap(v)["target"])
+//@ spec svcShapeN(r map[string]any, k string) bool = (has(r, "build") ==> isMap(r["build"]) && !fresh(asMap(r["build"])) && role(asMap(r["build"])) == 12) && (has(r, "depends_on") ==> isMap(r["depends_on"]) && (fresh(asMap(r["depends_on"])) || role(asMap(r["depends_on"])) == 13)) && (has(r, "links") ==> strList(r["links"])) && (has(r, "volumes_from") ==> strList(r["volumes_from"])) && (has(r, "network_mode") ==> isStr(r["network_mode"])) && (has(r, "ipc") ==> isStr(r["ipc"])) && (has(r, "pid") ==> isStr(r["pid"])) && (has(r, "uts") ==> isStr(r["uts"])) && (has(r, "cgroup") ==> isStr(r["cgroup"])) && (has(r, "volumes") ==> isList(r["volumes"]) && !fresh(asList(r["volumes"])) && (forall i int :: 0 <= i && i < len(asList(r["volumes"])) ==> volOK(asList(r["volumes"])[i], k)))
+//@ spec svcsOK(m map[string]any) bool = forall k string :: has(m, k) ==> isMap(m[k]) && !fresh(asMap(m[k])) && role(asMap(m[k])) == 10 && okey(asMap(m[k])) == k && svcShapeN(asMap(m[k]), k)
+//@ spec normShape(d map[string]any) bool = has(d, "services") ==> isMap(d["services"]) && !fresh(svcs(d)) && role(svcs(d)) == 1 && (forall k string :: has(svcs(d), k) ==> isMap(svcs(d)[k]) && !fresh(svc(d, k)) && role(svc(d, k)) == 10 && okey(svc(d, k)) == k && svcShapeN(svc(d, k), k))
+
+//@ func Normalize
+//@   nopanic[C01,C11]
+//@   requires dict != nil
+//@   requires netShape(dict) && netSep(dict) && netClosed(dict)
+//@   requires normShape(dict)
+//@   requires resShape(dict) && resSep(dict)
+//@   ensures[C01] err == nil && result.0 == dict
+// C11: a depends_on entry the user declared is never replaced by an implicit one (links, service: namespaces, volumes_from).
+// Carried as invariant[C11] through all five loops (any pre-existing entry of any depends_on map keeps its value); the
+// function-level form below needs a frame postcondition of setNameFromKey for role-10/13 maps, not written yet (time).
+//@?  ensures[C11] forall k string, d string :: old(hasSvc(dict, k) && has(svc(dict, k), "depends_on") && has(asMap(svc(dict, k)["depends_on"]), d)) ==> has(svc(dict, k), "depends_on") && svc(dict, k)["depends_on"] == old(svc(dict, k)["depends_on"]) && asMap(svc(dict, k)["depends_on"])[d] == old(asMap(svc(dict, k)["depends_on"])[d])
+// The service-shape invariant is spelled as flat quantifiers (k, i): nested quantifiers inside a macro get no usable trigger.
+//@   loop 1
+//@     invariant[C11] forall m map[string]any, d string :: !fresh(m) && role(m) == 13 && old(has(m, d)) ==> has(m, d) && m[d] == old(m[d])
+//@     invariant dict != nil && role(dict) == 0 && has(dict, "services") && isMap(dict["services"]) && asMap(dict["services"]) == services && services != nil && !fresh(services) && role(services) == 1
+//@     invariant forall k string :: has(services, k) ==> isMap(services[k]) && !fresh(asMap(services[k])) && role(asMap(services[k])) == 10 && okey(asMap(services[k])) == k
+//@     invariant forall k string :: has(services, k) && has(asMap(services[k]), "build") ==> isMap(asMap(services[k])["build"]) && !fresh(asMap(asMap(services[k])["build"])) && role(asMap(asMap(services[k])["build"])) == 12
+//@     invariant forall k string :: has(services, k) && has(asMap(services[k]), "depends_on") ==> isMap(asMap(services[k])["depends_on"]) && (fresh(asMap(asMap(services[k])["depends_on"])) || role(asMap(asMap(services[k])["depends_on"])) == 13)
+//@     invariant forall k string :: has(services, k) ==> (has(asMap(services[k]), "network_mode") ==> isStr(asMap(services[k])["network_mode"])) && (has(asMap(services[k]), "ipc") ==> isStr(asMap(services[k])["ipc"])) && (has(asMap(services[k]), "pid") ==> isStr(asMap(services[k])["pid"])) && (has(asMap(services[k]), "uts") ==> isStr(asMap(services[k])["uts"])) && (has(asMap(services[k]), "cgroup") ==> isStr(asMap(services[k])["cgroup"]))
+//@     invariant forall k string :: has(services, k) ==> (has(asMap(services[k]), "links") ==> isList(asMap(services[k])["links"]) && !fresh(asList(asMap(services[k])["links"]))) && (has(asMap(services[k]), "volumes_from") ==> isList(asMap(services[k])["volumes_from"]) && !fresh(asList(asMap(services[k])["volumes_from"]))) && (has(asMap(services[k]), "volumes") ==> isList(asMap(services[k])["volumes"]) && !fresh(asList(asMap(services[k])["volumes"])))
+//@     invariant forall k string, i int :: has(services, k) && has(asMap(services[k]), "links") && 0 <= i && i < len(asList(asMap(services[k])["links"])) ==> isStr(asList(asMap(services[k])["links"])[i])
+//@     invariant forall k string, i int :: has(services, k) && has(asMap(services[k]), "volumes_from") && 0 <= i && i < len(asList(asMap(services[k])["volumes_from"])) ==> isStr(asList(asMap(services[k])["volumes_from"])[i])
+//@     invariant forall k string, i int :: has(services, k) && has(asMap(services[k]), "volumes") && 0 <= i && i < len(asList(asMap(services[k])["volumes"])) ==> volOK(asList(asMap(services[k])["volumes"])[i], k)
+//@     invariant forall s []any, i int :: !fresh(s) ==> s[i] == old(s[i])
+//@   loop 2
+//@     invariant[C11] forall m map[string]any, d string :: !fresh(m) && role(m) == 13 && old(has(m, d)) ==> has(m, d) && m[d] == old(m[d])
+//@     invariant dict != nil && role(dict) == 0 && has(dict, "services") && isMap(dict["services"]) && asMap(dict["services"]) == services && services != nil && !fresh(services) && role(services) == 1 && has(services, name) && isMap(services[name]) && asMap(services[name]) == service && service != nil
+//@     invariant forall k string :: has(services, k) ==> isMap(services[k]) && !fresh(asMap(services[k])) && role(asMap(services[k])) == 10 && okey(asMap(services[k])) == k
+//@     invariant forall k string :: has(services, k) && has(asMap(services[k]), "build") ==> isMap(asMap(services[k])["build"]) && !fresh(asMap(asMap(services[k])["build"])) && role(asMap(asMap(services[k])["build"])) == 12
+//@     invariant forall k string :: has(services, k) && has(asMap(services[k]), "depends_on") ==> isMap(asMap(services[k])["depends_on"]) && (fresh(asMap(asMap(services[k])["depends_on"])) || role(asMap(asMap(services[k])["depends_on"])) == 13)
+//@     invariant forall k string :: has(services, k) ==> (has(asMap(services[k]), "network_mode") ==> isStr(asMap(services[k])["network_mode"])) && (has(asMap(services[k]), "ipc") ==> isStr(asMap(services[k])["ipc"])) && (has(asMap(services[k]), "pid") ==> isStr(asMap(services[k])["pid"])) && (has(asMap(services[k]), "uts") ==> isStr(asMap(services[k])["uts"])) && (has(asMap(services[k]), "cgroup") ==> isStr(asMap(services[k])["cgroup"]))
+//@     invariant forall k string :: has(services, k) ==> (has(asMap(services[k]), "links") ==> isList(asMap(services[k])["links"]) && !fresh(asList(asMap(services[k])["links"]))) && (has(asMap(services[k]), "volumes_from") ==> isList(asMap(services[k])["volumes_from"]) && !fresh(asList(asMap(services[k])["volumes_from"]))) && (has(asMap(services[k]), "volumes") ==> isList(asMap(services[k])["volumes"]) && !fresh(asList(asMap(services[k])["volumes"])))
+//@     invariant forall k string, i int :: has(services, k) && has(asMap(services[k]), "links") && 0 <= i && i < len(asList(asMap(services[k])["links"])) ==> isStr(asList(asMap(services[k])["links"])[i])
+//@     invariant forall k string, i int :: has(services, k) && has(asMap(services[k]), "volumes_from") && 0 <= i && i < len(asList(asMap(services[k])["volumes_from"])) ==> isStr(asList(asMap(services[k])["volumes_from"])[i])
+//@     invariant forall k string, i int :: has(services, k) && has(asMap(services[k]), "volumes") && 0 <= i && i < len(asList(asMap(services[k])["volumes"])) ==> volOK(asList(asMap(services[k])["volumes"])[i], k)
+//@   loop 3
+//@     invariant[C11] forall m map[string]any, d string :: !fresh(m) && role(m) == 13 && old(has(m, d)) ==> has(m, d) && m[d] == old(m[d])
+//@     invariant dict != nil && role(dict) == 0 && has(dict, "services") && isMap(dict["services"]) && asMap(dict["services"]) == services && services != nil && !fresh(services) && role(services) == 1 && has(services, name) && isMap(services[name]) && asMap(services[name]) == service && service != nil
+//@     invariant -1 <= rangeindex && rangeindex < 5
+//@     invariant forall k string :: has(services, k) ==> isMap(services[k]) && !fresh(asMap(services[k])) && role(asMap(services[k])) == 10 && okey(asMap(services[k])) == k
+//@     invariant forall k string :: has(services, k) && has(asMap(services[k]), "build") ==> isMap(asMap(services[k])["build"]) && !fresh(asMap(asMap(services[k])["build"])) && role(asMap(asMap(services[k])["build"])) == 12
+//@     invariant forall k string :: has(services, k) && has(asMap(services[k]), "depends_on") ==> isMap(asMap(services[k])["depends_on"]) && (fresh(asMap(asMap(services[k])["depends_on"])) || role(asMap(asMap(services[k])["depends_on"])) == 13)
+//@     invariant forall k string :: has(services, k) ==> (has(asMap(services[k]), "network_mode") ==> isStr(asMap(services[k])["network_mode"])) && (has(asMap(services[k]), "ipc") ==> isStr(asMap(services[k])["ipc"])) && (has(asMap(services[k]), "pid") ==> isStr(asMap(services[k])["pid"])) && (has(asMap(services[k]), "uts") ==> isStr(asMap(services[k])["uts"])) && (has(asMap(services[k]), "cgroup") ==> isStr(asMap(services[k])["cgroup"]))
+//@     invariant forall k string :: has(services, k) ==> (has(asMap(services[k]), "links") ==> isList(asMap(services[k])["links"]) && !fresh(asList(asMap(services[k])["links"]))) && (has(asMap(services[k]), "volumes_from") ==> isList(asMap(services[k])["volumes_from"]) && !fresh(asList(asMap(services[k])["volumes_from"]))) && (has(asMap(services[k]), "volumes") ==> isList(asMap(services[k])["volumes"]) && !fresh(asList(asMap(services[k])["volumes"])))
+//@     invariant forall k string, i int :: has(services, k) && has(asMap(services[k]), "links") && 0 <= i && i < len(asList(asMap(services[k])["links"])) ==> isStr(asList(asMap(services[k])["links"])[i])
+//@     invariant forall k string, i int :: has(services, k) && has(asMap(services[k]), "volumes_from") && 0 <= i && i < len(asList(asMap(services[k])["volumes_from"])) ==> isStr(asList(asMap(services[k])["volumes_from"])[i])
+//@     invariant forall k string, i int :: has(services, k) && has(asMap(services[k]), "volumes") && 0 <= i && i < len(asList(asMap(services[k])["volumes"])) ==> volOK(asList(asMap(services[k])["volumes"])[i], k)
+//@   loop 4
+//@     invariant[C11] forall m map[string]any, d string :: !fresh(m) && role(m) == 13 && old(has(m, d)) ==> has(m, d) && m[d] == old(m[d])
+//@     invariant has(service, "volumes") && isList(service["volumes"]) && asList(service["volumes"]) == volumes && -1 <= rangeindex && rangeindex < len(volumes)
+//@     invariant dict != nil && role(dict) == 0 && has(dict, "services") && isMap(dict["services"]) && asMap(dict["services"]) == services && services != nil && !fresh(services) && role(services) == 1 && has(services, name) && isMap(services[name]) && asMap(services[name]) == service && service != nil
+//@     invariant forall k string :: has(services, k) ==> isMap(services[k]) && !fresh(asMap(services[k])) && role(asMap(services[k])) == 10 && okey(asMap(services[k])) == k
+//@     invariant forall k string :: has(services, k) && has(asMap(services[k]), "build") ==> isMap(asMap(services[k])["build"]) && !fresh(asMap(asMap(services[k])["build"])) && role(asMap(asMap(services[k])["build"])) == 12
+//@     invariant forall k string :: has(services, k) && has(asMap(services[k]), "depends_on") ==> isMap(asMap(services[k])["depends_on"]) && (fresh(asMap(asMap(services[k])["depends_on"])) || role(asMap(asMap(services[k])["depends_on"])) == 13)
+//@     invariant forall k string :: has(services, k) ==> (has(asMap(services[k]), "network_mode") ==> isStr(asMap(services[k])["network_mode"])) && (has(asMap(services[k]), "ipc") ==> isStr(asMap(services[k])["ipc"])) && (has(asMap(services[k]), "pid") ==> isStr(asMap(services[k])["pid"])) && (has(asMap(services[k]), "uts") ==> isStr(asMap(services[k])["uts"])) && (has(asMap(services[k]), "cgroup") ==> isStr(asMap(services[k])["cgroup"]))
+//@     invariant forall k string :: has(services, k) ==> (has(asMap(services[k]), "links") ==> isList(asMap(services[k])["links"]) && !fresh(asList(asMap(services[k])["links"]))) && (has(asMap(services[k]), "volumes_from") ==> isList(asMap(services[k])["volumes_from"]) && !fresh(asList(asMap(services[k])["volumes_from"]))) && (has(asMap(services[k]), "volumes") ==> isList(asMap(services[k])["volumes"]) && !fresh(asList(asMap(services[k])["volumes"])))
+//@     invariant forall k string, i int :: has(services, k) && has(asMap(services[k]), "links") && 0 <= i && i < len(asList(asMap(services[k])["links"])) ==> isStr(asList(asMap(services[k])["links"])[i])
+//@     invariant forall k string, i int :: has(services, k) && has(asMap(services[k]), "volumes_from") && 0 <= i && i < len(asList(asMap(services[k])["volumes_from"])) ==> isStr(asList(asMap(services[k])["volumes_from"])[i])
+//@     invariant forall k string, i int :: has(services, k) && has(asMap(services[k]), "volumes") && 0 <= i && i < len(asList(asMap(services[k])["volumes"])) ==> volOK(asList(asMap(services[k])["volumes"])[i], k)
+//@     invariant forall s []any, i int :: !fresh(s) ==> s[i] == old(s[i])
+//@   loop 5
+//@     invariant[C11] forall m map[string]any, d string :: !fresh(m) && role(m) == 13 && old(has(m, d)) ==> has(m, d) && m[d] == old(m[d])
+//@     invariant dict != nil && role(dict) == 0 && has(dict, "services") && isMap(dict["services"]) && asMap(dict["services"]) == services && services != nil && !fresh(services) && role(services) == 1 && has(services, name) && isMap(services[name]) && asMap(services[name]) == service && service != nil
+//@     invariant forall k string :: has(services, k) ==> isMap(services[k]) && !fresh(asMap(services[k])) && role(asMap(services[k])) == 10 && okey(asMap(services[k])) == k
+//@     invariant forall k string :: has(services, k) && has(asMap(services[k]), "build") ==> isMap(asMap(services[k])["build"]) && !fresh(asMap(asMap(services[k])["build"])) && role(asMap(asMap(services[k])["build"])) == 12
+//@     invariant forall k string :: has(services, k) && has(asMap(services[k]), "depends_on") ==> isMap(asMap(services[k])["depends_on"]) && (fresh(asMap(asMap(services[k])["depends_on"])) || role(asMap(asMap(services[k])["depends_on"])) == 13)
+//@     invariant forall k string :: has(services, k) ==> (has(asMap(services[k]), "network_mode") ==> isStr(asMap(services[k])["network_mode"])) && (has(asMap(services[k]), "ipc") ==> isStr(asMap(services[k])["ipc"])) && (has(asMap(services[k]), "pid") ==> isStr(asMap(services[k])["pid"])) && (has(asMap(services[k]), "uts") ==> isStr(asMap(services[k])["uts"])) && (has(asMap(services[k]), "cgroup") ==> isStr(asMap(services[k])["cgroup"]))
+//@     invariant forall k string :: has(services, k) ==> (has(asMap(services[k]), "links") ==> isList(asMap(services[k])["links"]) && !fresh(asList(asMap(services[k])["links"]))) && (has(asMap(services[k]), "volumes_from") ==> isList(asMap(services[k])["volumes_from"]) && !fresh(asList(asMap(services[k])["volumes_from"]))) && (has(asMap(services[k]), "volumes") ==> isList(asMap(services[k])["volumes"]) && !fresh(asList(asMap(services[k])["volumes"])))
+//@     invariant forall k string, i int :: has(services, k) && has(asMap(services[k]), "links") && 0 <= i && i < len(asList(asMap(services[k])["links"])) ==> isStr(asList(asMap(services[k])["links"])[i])
+//@     invariant forall k string, i int :: has(services, k) && has(asMap(services[k]), "volumes_from") && 0 <= i && i < len(asList(asMap(services[k])["volumes_from"])) ==> isStr(asList(asMap(services[k])["volumes_from"])[i])
+//@     invariant forall k string, i int :: has(services, k) && has(asMap(services[k]), "volumes") && 0 <= i && i < len(asList(asMap(services[k])["volumes"])) ==> volOK(asList(asMap(services[k])["volumes"])[i], k)
+
+// ---------------------------------------------------------------------------------------------
+// environment.go (C16: list entries without value get K=V from the environment iff defined). No shape precondition is
+// needed: every assertion is comma-ok. The value clause needs fmt.Sprintf("%s=%s", k, v), which the engine models as an
+// arbitrary string, so it is kept inactive.
+//@ func ResolveEnvironment
+//@   nopanic[C01,C16]
+
+//@ func resolveServicesEnvironment
+//@   nopanic[C01,C16]
+//@?  ensures[C16] forall k string, i int :: old(hasSvc(dict, k)) && old(isMap(svcs(dict)[k])) && old(isList(svc(dict, k)["environment"])) && 0 <= i && i < len(asList(svc(dict, k)["environment"])) && old(isStr(asList(svc(dict, k)["environment"])[i])) && !old(has(environment, asStr(asList(svc(dict, k)["environment"])[i]))) ==> asList(svc(dict, k)["environment"])[i] == old(asList(svc(dict, k)["environment"])[i])
+
+//@ func resolveSecretsEnvironment
+//@   nopanic[C01,C16]
+
+//@ func resolveConfigsEnvironment
+//@   nopanic[C01,C16]
